@@ -344,6 +344,26 @@ def check_reopen(ctx, fb):
             ", ".join(k for k, v in derive.items() if not v) + " missing"), loc(it))
 
 
+FLAG_WRITERS = {
+    # functions allowed to store into the empty-position flags; each is paired with a leaf write by R15-1 / R15-3 (or builds a fresh tree)
+    "set", "set_range", "update_next", "delete", "override_range", "new", "default", "remove_indices", "remove_indices_and_set_leaves",
+}
+TREE_FILES = ("utils/src/merkle_tree/optimal_merkle_tree.rs", "utils/src/merkle_tree/full_merkle_tree.rs", "rln/src/pm_tree_adapter.rs")
+
+
+def check_flag_writers(ctx, fb):
+    """R15-4 who-may-write: the flags are stored only by the operations whose pairing with the leaves is decided above; any other
+    function that writes them (a recomputation helper, an observer) makes the listing drift from the leaves"""
+    ws = treefx.field_writers(fb, treefx.FLAGS, TREE_FILES)
+    for path, it in sorted(ws.items()):
+        name = re.sub(r"::\{closure#\d+\}", "", path).split("::")[-1]
+        ctx.touch(it)
+        ctx.check(name in FLAG_WRITERS, "R15-4", "flag writer " + path.split("::")[-1] + "@" + it.file.split("/")[-1], "an operation whose flag/leaf pairing is decided by R15-1/R15-3",
+                  "%s stores into the empty-position flags but is not one of the leaf-writing operations: the listing changes although no leaf does "
+                  "(e.g. a recomputation helper marking a position as non-empty)" % path, loc(it))
+    ctx.floor("flag-writers", len(ws), 11)
+
+
 def run(ctx):
     ctx.prefetch(["default", "fixtures"])
     fb = ctx.fb("default")
@@ -351,6 +371,7 @@ def run(ctx):
     check_batches(ctx, fb)
     check_listing(ctx, fb, "default")
     check_reopen(ctx, fb)
+    check_flag_writers(ctx, fb)
     fx = ctx.fb("fixtures")
     try:
         it = fx.need("zkfix::trees::Flagged::set_range_wrong_flags")
